@@ -104,7 +104,7 @@ fn space_for(tier: Tier) -> (Space, usize) {
         Tier::Quick => {
             s.ast("K", 4, 64).ast("CL", 3, 64).ast("Q", 2, 64);
             s.ast_range("CL", 4, 4, 64, 2);
-            s.ast_range("LP", 1, 3, 32, 5);
+            s.ast_range("LP", 1, 4, 32, 5);
             s.ast_range("ALT", 1, 3, 32, 4);
             s.ast_range("FX", 1, 4, 32, 5).ast_range("FXA", 1, 4, 32, 5);
             s.list("triggers", t, 16);
